@@ -1,5 +1,6 @@
 """C08 — determinism: identical inputs give byte-identical outputs."""
 import copy
+import hashlib
 import json
 import os
 import subprocess
@@ -66,6 +67,23 @@ def targeted_docs(rng, n):
             lines.append("        font.%s" % m)
         lines += ["    }", "}", ""]
         docs.append(RawDoc("\n".join(lines)))
+    # error documents whose diagnostics come out of unordered containers: several dynamic members in object-typed groups
+    # (`nested dynamic binding`), several faults on one object
+    for k in range(max(2, n // 4)):
+        members = [("defaultSectionSize", "sp.value"), ("visible", "cb.checked"), ("minimumSectionSize", "sp.value + %d" % k),
+                   ("highlightSections", "!cb.checked"), ("stretchLastSection", "cb.checked && true"), ("cascadingSectionResizes", "cb.checked")]
+        rng.shuffle(members)
+        hh = members[:rng.randint(2, len(members))]
+        rng.shuffle(members)
+        vh = members[:rng.randint(2, len(members))]
+        lines = ["import qmluic.QtWidgets", "QWidget {", "    QSpinBox { id: sp }", "    QCheckBox { id: cb }", "    QTableView {"]
+        lines += ["        horizontalHeader.%s: %s" % m for m in hh]
+        lines.append("        verticalHeader { %s }" % "; ".join("%s: %s" % m for m in vh))
+        lines += ["        noSuchA: 1", "        noSuchB: sp.value", "        toolTip: 1 + cb.checked", "    }",
+                  "    QTreeView { header { %s } }" % "; ".join("%s: %s" % m for m in hh), "}", ""]
+        d = RawDoc("\n".join(lines))
+        d.fault = "multi"
+        docs.append(d)
     return docs
 
 
@@ -163,11 +181,39 @@ def run(tier, seed, replay=None):
         elif stats[0] != stats[1] or stats[1] != stats[2]:
             v.violation("cli-rewrote-unchanged", "re-run on unchanged input touched the outputs: %r -> %r" % (stats[0], stats[1]),
                         {"qml": d.source, "stats": [str(s) for s in stats]})
+    # ---- several sources in one invocation, some of them failing: which diagnostics appear and which outputs exist must not
+    # vary from process to process
+    multi_dir = common.workdir("c08multi")
+    good = "import qmluic.QtWidgets\nQWidget { QCheckBox { id: c } QLabel { enabled: c.checked; text: \"%s\" } }\n"
+    bad = "import qmluic.QtWidgets\nQWidget { %s: 1 }\n"
+    scenarios = [["BadA.qml", "BadB.qml"], ["Good1.qml", "BadA.qml"], ["Good1.qml", "BadA.qml", "Good2.qml", "BadB.qml"],
+                 ["Good1.qml", "Good2.qml", "Good3.qml", "BadB.qml", "BadA.qml"], ["BadB.qml", "Good1.qml", "Good2.qml"]]
+    n_multi = 0
+    for si, srcs in enumerate(scenarios):
+        results = []
+        for rep in range(6 if tier == "quick" else 24):
+            pdir = os.path.join(multi_dir, "s%d_%d" % (si, rep))
+            os.makedirs(pdir)
+            for fn in srcs:
+                with open(os.path.join(pdir, fn), "w") as f:
+                    f.write(good % fn if fn.startswith("Good") else bad % ("noSuch" + fn[3]))
+            p = subprocess.run([common.CLI, "generate-ui", "--foreign-types", common.METATYPES] + srcs, cwd=pdir, capture_output=True, text=True,
+                               env=dict(os.environ, NO_COLOR="1"), timeout=120)
+            produced = tuple(sorted((fn, hashlib.sha256(open(os.path.join(pdir, fn), "rb").read()).hexdigest())
+                                    for fn in os.listdir(pdir) if not fn.endswith(".qml")))
+            results.append((p.returncode, p.stderr, produced))
+            n_multi += 1
+        if len(set(results)) > 1:
+            a, b = sorted(set(results))[:2]
+            v.violation("cli-nondeterministic", "the same multi-source invocation %r gives different results in fresh processes "
+                        "(status / diagnostics / set of outputs)" % srcs,
+                        {"sources": srcs, "a": {"status": a[0], "stderr": a[1][-600:], "outputs": [x[0] for x in a[2]]},
+                         "b": {"status": b[0], "stderr": b[1][-600:], "outputs": [x[0] for x in b[2]]}})
     if order_hist and max(order_hist) < 2:
         v.inconc("hash seeds did not vary: every document showed a single binding visit order")
     v.assumptions = ["hash-order diversity is measured, not assumed: the hook reports the order in which the real HashMaps were iterated"]
     return v.finish(
-        evaluations=evaluations + 3 * cli_checked, distinct_nontrivial=distinct,
+        evaluations=evaluations + 3 * cli_checked + n_multi, distinct_nontrivial=distinct,
         rule="hash-heavy documents (12-30 bindings per object, gadgets, palettes, several callbacks, both system includes, "
              "several error diagnostics) translated %d times each in %d batches of fresh processes and shuffled order, "
              "plus 3 CLI runs; distinct non-trivial = documents for which >= 2 distinct binding visit orders were observed "
